@@ -5,9 +5,12 @@ import lifeharness as L
 RULE = ("action sequences (length <= 20) over {connect, refused connect, successful operation, operation that raises, body exception "
         "inside `async with`, clean `async with`, disconnect} for both API types against a scripted device on REAL loopback TCP; after "
         "every action: what the caller saw, the `connected` flag and the device-side count of open connections are compared with the "
-        "model; sequences respect 'no connect while connected' (the theorem's hypothesis); non-trivial = distinct (API type, action word)")
+        "model and judged by the Spec (connected <=> last of connect/disconnect was a connect; open connections = 1 iff connected); one stream "
+        "respects 'no connect while connected', a second one does not (theorem sockets_exactly_all, runtime parameter reclaim = true); "
+        "non-trivial = distinct (API type, action word)")
 ASSUMPTIONS = ["PARTIAL: that closing the writer makes the device see end-of-stream and that a refused connection raises OSError are "
-               "runtime facts observed here, not proved", "connect while already connected leaks the first socket (documented; outside the property)"]
+               "runtime facts observed here, not proved", "connecting over an open connection: the earlier socket is closed by the runtime when the overwritten StreamWriter is collected "
+               "(CPython >= 3.11.5; observed here, model parameter `reclaim`); on older runtimes it would stay open"]
 
 
 def _impl(a):
@@ -56,6 +59,27 @@ def gen(rng):
     return {"api": rng.choice(["type1", "type2"]), "acts": acts}
 
 
+def gen_any(rng):
+    """no restriction on connect: connecting over an open connection is allowed too.  The client overwrites its writer; on this
+    runtime (CPython >= 3.11.5) the unreferenced StreamWriter closes its transport, so the device still sees exactly one
+    open connection while connected (model parameter reclaim = true, theorem sockets_exactly_all)"""
+    acts, connected = [], False
+    for _ in range(rng.randrange(2, 16)):
+        a = rng.choice(["cok", "cok", "cref", "disc", "with", "withx"] + (["op", "opx"] if connected else []))
+        if a == "cok":
+            connected = True
+        if a in ("disc", "with", "withx"):
+            connected = False
+        acts.append(a)
+    return {"api": rng.choice(["type1", "type2"]), "acts": acts}
+
+
+ANY = C.Kind("client-life-unrestricted", impl=_impl, model=lambda a: "clife " + " ".join(a["acts"]), judge=_judge,
+             classify=lambda a, o: f"{a['api']}:maxopen{max(int(x.split(':')[2]) for x in o.split(' '))}",
+             nontrivial=lambda a, o: (a["api"], tuple(a["acts"])),
+             shrink=lambda a: [dict(a, acts=a["acts"][:i] + a["acts"][i + 1:]) for i in range(len(a["acts"]))])
+KINDS["client-life-unrestricted"] = ANY
+
 FIXED = [{"api": t, "acts": acts} for t in ("type1", "type2") for acts in (
     ["disc", "disc", "cref", "cok", "op", "opx", "op", "disc", "disc", "cok", "disc"],
     ["withx", "with", "cok", "disc", "withx", "cref", "cok", "opx", "disc"],
@@ -66,6 +90,7 @@ def streams(ctx):
     rng = ctx.rng
     ctx.run_cases(LIFE, "fixed-scenarios", FIXED, exhaustive=True)
     ctx.run_cases(LIFE, "random-action-sequences", [gen(rng) for _ in range(ctx.n(140, 3000))], exhaustive=False, sample_every=60)
+    ctx.run_cases(ANY, "unrestricted-sequences", [gen_any(rng) for _ in range(ctx.n(60, 1200))], exhaustive=False, sample_every=30)
 
 
 def search(ctx, broken):
